@@ -1,6 +1,8 @@
 """C03 - decorating a callable never changes what it does.
 
-Theorem side: Props/C03.v over Wrap/{Protocol,GenWrap,CoroWrap,GenWrapFun}.v.
+Theorem side: Props/C03.v over Wrap/{Protocol,GenWrap,CoroWrap,GenWrapFun,GenWrapRepaired}.v.
+The generator wrapper model has one switch (`Definition repo_forwards` in Wrap/GenWrap.v: does the
+wrapper forward throw()/close()?); the correspondence check ties that line to the code.
 Tie: correspondence.  Random / exhaustive table-driven real generators, coroutines,
 async generators and functions are run (a) unwrapped - validating the environment model
 Wrap/Protocol.v - and (b) through the REAL wrap_* of line_profiler.LineProfiler and
@@ -19,16 +21,16 @@ THEOREMS = [
     'C03_function', 'C03_function_pure', 'C03_function_nonvacuous', 'C03_same_profiler_nested',
     'C03_two_profilers_refuted',
     'C03_coroutine', 'C03_coroutine_nonvacuous', 'C03_coroutine_hypotheses_needed',
-    'C03_generator_refuted', 'C03_generator_refuted_return', 'C03_generator_refuted_throw',
-    'C03_generator_refuted_close',
-    'C03_generator_partial', 'C03_generator_partial_nonvacuous',
+    'C03_generator_refuted', 'C03_generator_refuted_throw', 'C03_generator_refuted_close',
+    'C03_generator_partial', 'C03_generator_partial_nonvacuous', 'C03_generator_return_value',
     'C03_async_generator_refuted', 'C03_async_generator_refuted_athrow_aclose', 'C03_async_generator_partial',
-    'C03_generator_repaired', 'C03_generator_repaired_nonvacuous',
+    'C03_generator_repaired_operations', 'C03_generator_repaired', 'C03_generator_repaired_nonvacuous',
+    'C03_generator_repaired_residual', 'C03_generator_current',
     'C03_metadata', 'C03_metadata_nonvacuous',
 ]
 LEVEL = 'proof'
 
-F_RET = 'C03-generator-return-value-dropped'
+F_RET = 'C03-generator-return-value-dropped'      # fixed in /repo by 44481f3: no longer a classifier target
 F_THROW = 'C03-generator-throw-close-not-forwarded'
 F_ATHROW = 'C03-async-generator-athrow-aclose-not-forwarded'
 F_NEST = 'C03-second-profiler-valueerror'
@@ -138,18 +140,19 @@ def table_honours_close(table):
     return all(row[3][0] != 'Y' for row in table)
 
 
-def table_returns_none(table):
-    return all(not (a[0] == 'R' and (a[1] != 0 or a[2])) for row in table for a in row)
-
-
 def coro_hyp(table, ops):
     return table_honours_close(table) and not any(o == ['t', GE] for o in ops)
 
 
 def py_spec_protocol(kind, table, ops, wobs, robs):
-    if kind == 'coro' and not coro_hyp(table, ops):
-        return True
-    return erase(wobs) == robs
+    """the property on the implementation's own output.  Coroutines: judged under the hypotheses of
+    C03_coroutine.  Generators / async generators: the answers to the operations are always judged;
+    finalisation is judged when the body honours the close contract (a body that yields while it is being
+    finalised is in error - CPython reports RuntimeError to sys.unraisablehook)."""
+    if kind == 'coro':
+        return (not coro_hyp(table, ops)) or erase(wobs) == robs
+    w = erase(wobs)
+    return w[0] == robs[0] and (not table_honours_close(table) or w[1] == robs[1])
 
 
 def classify_protocol(kind, ops, wobs, robs):
@@ -178,9 +181,6 @@ def classify_protocol(kind, ops, wobs, robs):
             if body_saw == [200 + GE] and ws[-1] == expected:
                 return F_THROW if kind == 'gen' else F_ATHROW
             return None
-        if kind == 'gen' and op[0] in ('n', 's') and 2000 < rs[-1] < 3000 and ws[-1] == 2000 and ws[:-1] == rs[:-1]:
-            # signature: the body returns a non-None value; the wrapper answers StopIteration(None)
-            return F_RET
         return None
     return None
 
@@ -466,9 +466,8 @@ def eval_protocol(recs, res, cov, use_coq=True):
         mism += [lo + i for i in sres[1][0]]
         sfail += [lo + i for i in sres[1][1]]
     cov['protocol_shards'] = len(bodies)
-    variant = 'current'
     if mism and not res.infra_errors:
-        # does the implementation behave like the repaired wrapper instead?
+        # diagnostic only: does the implementation behave like the OTHER wrapper variant?
         wrapped_gen = [i for i, (j, which) in enumerate(idx) if which != 'ref' and recs[j]['kind'] in ('gen', 'agen')]
         if set(mism) <= set(wrapped_gen):
             rrows = []
@@ -480,13 +479,10 @@ def eval_protocol(recs, res, cov, use_coq=True):
             rb, rs = pack_shards(rrows)
             rsh = core.run_shards('c03r', HEADER, rb)
             if all(s[0] == 'ok' and len(s[1]) == 2 and not s[1][0] for s in rsh):
-                variant = 'repaired'
-                mism = []
-                res.notes.append('the implementation disagrees with the model of the CURRENT wrap_generator/'
-                                 'wrap_async_generator but agrees on all %d wrapped cases with Wrap/GenWrapRepaired.v: '
-                                 'the tree has been repaired; C03_generator_repaired is the theorem that applies and '
-                                 'the *_refuted theorems describe the old code' % len(wrapped_gen))
-    cov['wrapper_model_variant'] = variant
+                res.notes.append('the implementation disagrees with the wrapper model named by `repo_forwards` in Wrap/GenWrap.v '
+                                 'but agrees on all %d wrapped generator / async-generator cases with the other variant: the tree '
+                                 'changed sides (throw/close forwarding applied or removed) - flip that one line; '
+                                 'C03_generator_current then states the theorem that applies' % len(wrapped_gen))
     for i in mism:
         j, which = idx[i]
         r = recs[j]
@@ -669,7 +665,7 @@ def run(tier, seed):
             for which in ('ref', 'lp', 'cp'):
                 nontrivial.add((r['kind'], json.dumps(r['table']), json.dumps(r['ops']), which))
         send_only = all(o[0] in ('n', 's') for o in r['ops'])
-        if r['kind'] in ('gen', 'agen') and send_only and (r['kind'] == 'agen' or table_returns_none(r['table'])):
+        if r['kind'] in ('gen', 'agen') and send_only:
             hyp_partial += 1
         if r['kind'] in ('gen', 'agen') and table_honours_close(r['table']):
             hyp_repaired += 1
